@@ -2,11 +2,11 @@ package main
 
 import (
 	"bytes"
-	"testing/iotest"
 	"fmt"
 	"io"
 	"strconv"
 	"strings"
+	"testing/iotest"
 
 	"pault.ag/go/debian/control"
 	"pault.ag/go/debian/hashio"
@@ -43,32 +43,47 @@ func runVerifier(fh control.FileHash, chunks []string) string {
 	return "accept"
 }
 
-func init() {
-	ops["hwrite"] = func(a []string) string {
-		var target bytes.Buffer
-		names := namesOf(arg(a, 0))
-		var w io.Writer
-		var hs []*hashio.Hasher
-		var err error
-		if len(names) == 1 && strings.HasSuffix(names[0], "!") {
-			// the single-hasher constructor
-			var h *hashio.Hasher
-			w, h, err = hashio.NewHasherWriter(strings.TrimSuffix(names[0], "!"), &target)
-			hs = []*hashio.Hasher{h}
-		} else {
-			w, hs, err = hashio.NewHasherWriters(names, &target)
-		}
-		if err != nil {
-			return "err"
-		}
-		for _, c := range a[1:] {
-			n, err := w.Write([]byte(c))
-			if err != nil || n != len(c) {
-				return "write-error"
-			}
-		}
-		return "ok " + showData(target.Bytes()) + " " + showHashers(hs)
+func hwriteWith(a []string, mixed bool) string {
+	var target bytes.Buffer
+	names := namesOf(arg(a, 0))
+	var w io.Writer
+	var hs []*hashio.Hasher
+	var err error
+	if len(names) == 1 && strings.HasSuffix(names[0], "!") {
+		// the single-hasher constructor
+		var h *hashio.Hasher
+		w, h, err = hashio.NewHasherWriter(strings.TrimSuffix(names[0], "!"), &target)
+		hs = []*hashio.Hasher{h}
+	} else {
+		w, hs, err = hashio.NewHasherWriters(names, &target)
 	}
+	if err != nil {
+		return "err"
+	}
+	for k, c := range a[1:] {
+		var n int
+		var err error
+		switch {
+		case mixed && k%3 == 2:
+			n, err = fmt.Fprint(w, c)
+		case mixed && k%2 == 1:
+			n, err = io.WriteString(w, c)
+		default:
+			n, err = w.Write([]byte(c))
+		}
+		if err != nil || n != len(c) {
+			return "write-error"
+		}
+	}
+	return "ok " + showData(target.Bytes()) + " " + showHashers(hs)
+}
+
+func init() {
+	ops["hwrite"] = func(a []string) string { return hwriteWith(a, false) }
+	// hwrites: the same stream, but every second chunk is handed over with io.WriteString (and fmt.Fprint for every
+	// third): however the bytes are delivered to the writer, they are passed through, counted and hashed
+	ops["hwrites"] = func(a []string) string { return hwriteWith(a, true) }
+
 	// hwriteobs: as hwrite, but Size() and Sum(nil) of every hasher are also read after each Write: observing a
 	// hasher in mid-stream must not disturb it, and what it reports then is the digest of the bytes so far
 	ops["hwriteobs"] = func(a []string) string {
